@@ -65,5 +65,12 @@ void __CPROVER_atomic_end(void) {}
 
 #ifdef VF_ENTRY
 void VF_ENTRY(void);
-int main(void) { VF_ENTRY(); printf("VF-END\n"); return 0; }
+/* fills the stack region the harness is about to use, so that reads of uninitialised
+   locals see a chosen pattern instead of whatever the loader left there */
+static __attribute__((noinline)) void vf_poison_stack(int pat) { volatile unsigned char a[1 << 18]; for (unsigned i = 0; i < sizeof a; i++) a[i] = (unsigned char)pat; }
+int main(void) {
+  const char* p = getenv("VF_POISON");
+  if (p) vf_poison_stack((int)strtoul(p, 0, 16));
+  VF_ENTRY(); printf("VF-END\n"); return 0;
+}
 #endif
